@@ -834,9 +834,11 @@ var brokerOwn map[string]bool
 var brokerOrderOnly bool
 
 func runBehaviour(steps []bStep, auth string, maxqos int, res *Result) (result *brokerMismatch) {
+	lifeRec.begin()
+	var foreign *brokerMismatch
+	defer func() { lifeRec.end(result == nil && foreign == nil) }() // after the clean-up: every connection has been ended
 	r := newBrokerRun(auth, maxqos)
 	defer r.cleanup()
-	var foreign *brokerMismatch
 	defer func() {
 		if result == nil && foreign != nil {
 			result = foreign
@@ -1385,6 +1387,7 @@ func cmdBrokerReplay(a Args) {
 		}
 	}
 	retry := a.num("retry", 1)
+	lifeOpen(a.str("life", ""), a.num("lifeevery", 1))
 	err := readLines(a, func(line []byte) error {
 		var steps []bStep
 		if err := json.Unmarshal(line, &steps); err != nil {
@@ -1430,6 +1433,7 @@ func cmdBrokerReplay(a Args) {
 	if err != nil {
 		fatal("brokerreplay: %v", err)
 	}
+	res.Counts["life_recordings"], res.Counts["life_events"] = lifeRec.close()
 	res.emit()
 }
 
